@@ -43,13 +43,13 @@ var (
 	TString = &Ty{K: "string"}
 )
 
-func SliceOf(t *Ty) *Ty       { return &Ty{K: "slice", Elem: t} }
-func MapOf(k, v *Ty) *Ty      { return &Ty{K: "map", Key: k, Elem: v} }
-func PtrTo(name string) *Ty   { return &Ty{K: "ptr", Name: name} }
-func FuncTy(s *FuncSig) *Ty   { return &Ty{K: "func", Sig: s} }
-func (t *Ty) IsInt() bool     { return t.K == "int" || t.K == "int8" || t.K == "uint8" || t.K == "uint32" }
-func (t *Ty) Signed() bool    { return t.K == "int" || t.K == "int8" }
-func (t *Ty) Eq(o *Ty) bool   { return t.Src(false) == o.Src(false) }
+func SliceOf(t *Ty) *Ty     { return &Ty{K: "slice", Elem: t} }
+func MapOf(k, v *Ty) *Ty    { return &Ty{K: "map", Key: k, Elem: v} }
+func PtrTo(name string) *Ty { return &Ty{K: "ptr", Name: name} }
+func FuncTy(s *FuncSig) *Ty { return &Ty{K: "func", Sig: s} }
+func (t *Ty) IsInt() bool   { return t.K == "int" || t.K == "int8" || t.K == "uint8" || t.K == "uint32" }
+func (t *Ty) Signed() bool  { return t.K == "int" || t.K == "int8" }
+func (t *Ty) Eq(o *Ty) bool { return t.Src(false) == o.Src(false) }
 func (t *Ty) SpecInt() string { // FixedWidth type name
 	if t.K == "int" {
 		return "int32"
@@ -60,11 +60,14 @@ func (t *Ty) SpecInt() string { // FixedWidth type name
 // Src renders the type; goMode spells int as int32.
 func (t *Ty) Src(goMode bool) string {
 	if t.Alias != "" {
-		return t.Alias
+		if strings.HasPrefix(t.Alias, "*") {
+			return "*" + qualName(t.Alias[1:])
+		}
+		return qualName(t.Alias)
 	}
 	switch t.K {
 	case "iface":
-		return t.Name
+		return qualName(t.Name)
 	case "int":
 		if goMode {
 			return "int32"
@@ -75,7 +78,7 @@ func (t *Ty) Src(goMode bool) string {
 	case "map":
 		return "map[" + t.Key.Src(goMode) + "]" + t.Elem.Src(goMode)
 	case "ptr":
-		return "*" + t.Name
+		return "*" + qualName(t.Name)
 	case "func":
 		var ps, rs []string
 		for i, p := range t.Sig.Params {
@@ -141,7 +144,7 @@ type E struct {
 	Lit    *Func    // funclit: the literal (lifted to a named function for the specification)
 	Want   int      // call: results requested by the context when that differs from the declaration (error cases)
 	Line   int
-	Raw    bool // string literal printed as raw string
+	Raw    bool   // string literal printed as raw string
 	Spell  string // explicit source spelling of a literal (its meaning stays V / S)
 }
 
@@ -213,17 +216,20 @@ type Iface struct {
 }
 
 type Prog struct {
-	ID      string
-	Pkg     string
-	Structs []*StructDef
-	Ifaces  []*Iface
-	TypeDefs []*TypeDef
-	Globals []*S // package-level var declarations (in source order)
-	Funcs   []*Func
-	Inits   []*Func
-	Lits    []*Func // function literals (printed inline, lifted in the flat form)
-	Main    string
-	Imports []string
+	ID        string
+	Pkg       string
+	Structs   []*StructDef
+	Ifaces    []*Iface
+	TypeDefs  []*TypeDef
+	Globals   []*S // package-level var declarations (in source order)
+	Funcs     []*Func
+	Inits     []*Func
+	Split     *pkgSplit // multi-package layout (mg_split.go); nil: one package
+	libPart   bool      // (printing) this is the lib part of a split
+	importLib bool      // (printing) this is the main part of a split
+	Lits      []*Func   // function literals (printed inline, lifted in the flat form)
+	Main      string
+	Imports   []string
 	// NeedChoice: the program reads test inputs through choice()
 	NeedChoice bool
 }
@@ -352,7 +358,7 @@ func (p *printer) expr(e *E) string {
 	case "var":
 		return e.Name
 	case "fnval":
-		return e.Fn
+		return qualName(e.Fn)
 	case "funclit":
 		return p.funcLit(e.Lit)
 	case "bin":
@@ -385,7 +391,7 @@ func (p *printer) expr(e *E) string {
 	case "conv":
 		return e.Ty.Src(p.goMode) + "(" + p.expr(e.X) + ")"
 	case "call":
-		return e.Fn + "(" + p.args(e.Args, e.Spread) + ")"
+		return qualName(e.Fn) + "(" + p.args(e.Args, e.Spread) + ")"
 	case "callv":
 		return p.sub(e.X, 7, false) + "(" + p.args(e.Args, e.Spread) + ")"
 	case "mcall":
@@ -426,11 +432,28 @@ func (p *printer) expr(e *E) string {
 		}
 		if p.hdr > 0 {
 			// composite literals of named types must be parenthesised in if/for/switch headers
-			return "(&" + e.Sty + "{" + strings.Join(ss, ", ") + "})"
+			return "(&" + qualName(e.Sty) + "{" + strings.Join(ss, ", ") + "})"
 		}
-		return "&" + e.Sty + "{" + strings.Join(ss, ", ") + "}"
+		return "&" + qualName(e.Sty) + "{" + strings.Join(ss, ", ") + "}"
 	case "choice":
 		return fmt.Sprintf("choice(%d)", e.N)
+	case "lib":
+		if e.Fn == "strconv.Itoa" && p.goMode {
+			return "strconv.Itoa(int(" + p.expr(e.Args[0]) + "))"
+		}
+		if p.goMode && (e.Fn == "strings.Repeat" || e.Fn == "strings.Replace") {
+			// the count parameter is an int (the program's int is int32 in the Go rendering)
+			var as []string
+			for i, a := range e.Args {
+				x := p.expr(a)
+				if i == len(e.Args)-1 {
+					x = "int(" + x + ")"
+				}
+				as = append(as, x)
+			}
+			return e.Fn + "(" + strings.Join(as, ", ") + ")"
+		}
+		return e.Fn + "(" + p.args(e.Args, false) + ")"
 	}
 	panic("printer: unknown expr " + e.K)
 }
@@ -702,7 +725,7 @@ func (p *printer) ifChain(s *S) {
 func (p *printer) funcDecl(f *Func) {
 	f.Line = p.line
 	p.w("func ")
-	name := f.Name
+	name := declName(f.Name)
 	if f.Recv != "" {
 		p.w("(" + f.Recv + " *" + f.RecvTy + ") ")
 		name = strings.SplitN(f.Name, ".", 2)[1]
@@ -825,41 +848,126 @@ func Run(c []int32) {
 
 // Source renders the program. In go mode it is a complete package main with a main function that
 // runs Main once per choice vector.
+// Files renders the program as source files: one package, or main + lib when a split was chosen.
+func (prog *Prog) Files(goMode bool, choiceVectors [][]int) map[string]string {
+	if prog.Split == nil {
+		pkg := prog.Pkg
+		if pkg == "" {
+			pkg = "main"
+		}
+		return map[string]string{pkg + "/" + pkg + ".go": prog.Source(goMode, choiceVectors)}
+	}
+	splitMu.Lock()
+	defer splitMu.Unlock()
+	out := map[string]string{}
+	for _, cur := range []string{"lib", "main"} {
+		prog.Split.cur = cur
+		curSplit = prog.Split
+		out[cur+"/"+cur+".go"] = prog.sourceOf(goMode, choiceVectors, cur)
+	}
+	curSplit = nil
+	return out
+}
+
 func (prog *Prog) Source(goMode bool, choiceVectors [][]int) string {
+	return prog.sourceOf(goMode, choiceVectors, "")
+}
+
+// sourceOf prints the whole program (part == "") or the declarations of one package of a split.
+func (prog *Prog) sourceOf(goMode bool, choiceVectors [][]int, part string) string {
+	if part != "" {
+		sub := *prog
+		sub.Structs, sub.Ifaces, sub.TypeDefs, sub.Funcs = nil, nil, nil, nil
+		inLib := func(n string) bool { return prog.Split.lib[n] }
+		for _, x := range prog.Structs {
+			if inLib(x.Name) == (part == "lib") {
+				sub.Structs = append(sub.Structs, x)
+			}
+		}
+		for _, x := range prog.Ifaces {
+			if inLib(x.Name) == (part == "lib") {
+				sub.Ifaces = append(sub.Ifaces, x)
+			}
+		}
+		for _, x := range prog.TypeDefs {
+			if inLib(x.Name) == (part == "lib") {
+				sub.TypeDefs = append(sub.TypeDefs, x)
+			}
+		}
+		for _, x := range prog.Funcs {
+			if inLib(x.Name) == (part == "lib") {
+				sub.Funcs = append(sub.Funcs, x)
+			}
+		}
+		sub.Split = nil
+		if part == "lib" {
+			sub.Globals = nil
+			sub.Pkg = "lib"
+			sub.libPart = true
+		} else {
+			sub.importLib = true
+		}
+		return sub.sourceOf(goMode, choiceVectors, "")
+	}
 	p := &printer{goMode: goMode, line: 1, prog: prog}
 	pkg := prog.Pkg
 	if pkg == "" {
 		pkg = "main"
 	}
+	// packages used by library calls (strings.*, strconv.*) anywhere in this program part
+	libPkgs := map[string]bool{}
+	needFmt := false
+	scanE := func(e *E) {
+		if e.K == "lib" {
+			libPkgs[strings.SplitN(e.Fn, ".", 2)[0]] = true
+		}
+	}
+	scanS := func(s *S) {
+		if s.K == "print" && s.Fmt {
+			needFmt = true
+		}
+	}
+	for _, f := range prog.Funcs {
+		walkStmts(f.Body, scanS, scanE)
+	}
+	for _, f := range prog.Inits {
+		walkStmts(f.Body, scanS, scanE)
+	}
+	walkStmts(prog.Globals, scanS, scanE)
+	var imports []string
+	if goMode || needFmt {
+		imports = append(imports, "fmt")
+	}
+	if prog.importLib {
+		if goMode {
+			imports = append(imports, "LIBPATH")
+		} else {
+			imports = append(imports, "lib")
+		}
+	}
+	for _, lp := range []string{"strconv", "strings"} {
+		if libPkgs[lp] {
+			imports = append(imports, lp)
+		}
+	}
+	imp := ""
+	if len(imports) == 1 {
+		imp = "import \"" + imports[0] + "\"\n\n"
+	} else if len(imports) > 1 {
+		imp = "import (\n"
+		for _, x := range imports {
+			imp += "\t\"" + x + "\"\n"
+		}
+		imp += ")\n\n"
+	}
 	if goMode {
-		p.w("package main\n\nimport \"fmt\"\n\nfunc pr_(a ...any) { fmt.Println(a...) }\n\nfunc pr0_(a ...any) { fmt.Print(a...) }\n\nvar _, _ = pr_, pr0_\n\n")
+		gp := "main"
+		if prog.libPart {
+			gp = "lib"
+		}
+		p.w("package " + gp + "\n\n" + imp + "func pr_(a ...any) { fmt.Println(a...) }\n\nfunc pr0_(a ...any) { fmt.Print(a...) }\n\nvar _, _ = pr_, pr0_\n\n")
 	} else {
-		p.w("package " + pkg + "\n\n")
-		needFmt := false
-		var walk func(ss []*S)
-		walk = func(ss []*S) {
-			for _, s := range ss {
-				if s.K == "print" && s.Fmt {
-					needFmt = true
-				}
-				walk(s.Then)
-				walk(s.Else)
-				walk(s.Body)
-				walk(s.Def)
-				for _, c := range s.Cases {
-					walk(c.Body)
-				}
-			}
-		}
-		for _, f := range prog.Funcs {
-			walk(f.Body)
-		}
-		for _, f := range prog.Inits {
-			walk(f.Body)
-		}
-		if needFmt {
-			p.w("import \"fmt\"\n\n")
-		}
+		p.w("package " + pkg + "\n\n" + imp)
 	}
 	p.typeDecls(prog)
 	if prog.NeedChoice {
@@ -882,7 +990,7 @@ func (prog *Prog) Source(goMode bool, choiceVectors [][]int) string {
 	for _, f := range prog.Inits {
 		p.funcDecl(f)
 	}
-	if goMode {
+	if goMode && !prog.libPart {
 		// every run starts from freshly initialised package-level variables (as a fresh VM does)
 		p.w("func resetGlobals() {\n")
 		for _, g := range prog.Globals {
@@ -1041,6 +1149,8 @@ func (f *flat) expr(e *E) int {
 		return f.add(map[string]any{"k": "new", "sty": e.Sty, "fnames": strsOrEmpty(e.Fields), "fvals": f.exprs(e.Args), "zeros": e.zerosFor(f)})
 	case "choice":
 		return f.add(map[string]any{"k": "choice", "n": e.N})
+	case "lib":
+		return f.add(map[string]any{"k": "lib", "fn": e.Fn, "args": f.exprs(e.Args)})
 	}
 	panic("flat: unknown expr " + e.K)
 }
